@@ -8,6 +8,7 @@ package filterstorage
 import (
 	"context"
 	"errors"
+	"fmt"
 	"slices"
 	"strings"
 
@@ -18,6 +19,7 @@ import (
 var (
 	verifIdxKeys  []string
 	verifOutcome  map[string]bool
+	verifTimesOut map[string]bool
 	verifCallKeys []string // keys of the valid entries in index order, consumed per refresh call
 	verifCallPos  int
 	verifCancelID string
@@ -32,6 +34,7 @@ func (*verifEnv13) cacheDir() string   { return "/ghost/cache" }
 func (*verifEnv13) attach(s *Default)  {}
 func (*verifEnv13) setIndex(k []string) { verifIdxKeys = k }
 func (*verifEnv13) setCancelAt(id string, cancel func()) { verifCancelID, verifCancelFn = id, cancel }
+func (*verifEnv13) setTimeouts(t map[string]bool) { verifTimesOut = t }
 func (*verifEnv13) setOutcomes(ok map[string]bool) {
 	verifOutcome = ok
 	verifCallPos = 0
@@ -81,6 +84,10 @@ func verifListRefresh(rl *rulelist.Refreshable, ctx context.Context, acceptStale
 	}
 	if verifOutcome[verifListIDs[rl]] {
 		return nil
+	}
+	if verifTimesOut[verifListIDs[rl]] {
+		// what the HTTP client reports when its own timeout expires
+		return fmt.Errorf("refreshing: requesting: %w", context.DeadlineExceeded)
 	}
 	return errors.New("download failed")
 }
